@@ -92,7 +92,7 @@ MUTANTS = [
     ("c02-links-nbytes", "C02", "tdfData3D.py", "LinkType.btype.itemsize * len(self._link_records())", "0 * len(self._link_records())"),
     ("c02-optical-vp", "C02", "tdfOpticalSystem.py", "        camera_viewport = CameraViewPort.bread(stream)\n",
      "        camera_viewport = CameraViewPort(VEC2I.bread(stream), VEC2I.bread(stream) if False else np.zeros(2, dtype='<i4'))\n"),
-    ("c03-add-no-repoint", "C03", "basictdf.py", "            entry.offset = new_entry.offset + new_entry.size\n", "            pass\n"),
+    ("c09-add-no-repoint", "C09", "basictdf.py", "            entry.offset = new_entry.offset + new_entry.size\n", "            pass\n"),
     ("c03-remove-shift", "C03", "basictdf.py", "                entry.offset -= oldEntry.size", "                entry.offset -= max(oldEntry.size - 1, 0)"),
     ("c04-tail-late", "C04", "basictdf.py", "self.handler.seek(oldEntry.offset + oldEntry.size, 0)\n        temp = self.handler.read()",
      "self.handler.seek(oldEntry.offset + oldEntry.size + 1, 0)\n        temp = b'\\0' + self.handler.read()"),
@@ -144,7 +144,7 @@ MUTANTS = [
     ("c20-events-class-attr", "C20", "tdfEvents.py", "        self.events = []\n", "        self.events = TemporalEventsData._shared\n"),
     ("c20-emg-default", "C20", "tdfEMG.py", "        self._signals = []\n        self._emgMap = []", "        self._signals = EMG._pool\n        self._emgMap = []"),
     # environment faults added in round 1, wave 6: each needs one of them to show
-    ("c09-offset-from-path-size", "C09", "basictdf.py", "offset=self.entries[unusedBlockPos].offset,", "offset=self.nBytes,"),  # chdir
+    ("c09-offset-from-path-size", "C09", "basictdf.py", "offset=endOfData,", "offset=self.nBytes,"),  # chdir
     ("c04-text-replace-both-ways", "C04", "tdfTypes.py", None, None),  # undefined cp1252 byte in a table comment: read as U+FFFD, written back as '?'
     ("c08-warn-in-enter", "C08", "basictdf.py", "        self.entries = [TdfEntry._build(self.handler) for _ in range(self.nEntries)]\n",
      "        self.entries = [TdfEntry._build(self.handler) for _ in range(self.nEntries)]\n        if self.handler.writable() and self.nEntries < 14:\n            import warnings\n            warnings.warn('short table')\n"),  # python -W error
